@@ -215,6 +215,144 @@ def _spread_literal_tuples(fn_node):
     return n
 
 
+class _DecideCounter(ast.NodeTransformer):
+    """replace tests of the enumerate counter against zero by their value for the first pass (zero=True) or for the later
+    passes (zero=False) and fold the constants away"""
+    def __init__(self, name, zero):
+        self.name = name
+        self.zero = zero
+        self.ok = True
+
+    def _is_i(self, e):
+        return isinstance(e, ast.Name) and e.id == self.name
+
+    def visit_Compare(self, node):
+        self.generic_visit(node)
+        if len(node.ops) == 1 and self._is_i(node.left) and isinstance(node.comparators[0], ast.Constant) and \
+                isinstance(node.comparators[0].value, int) and not isinstance(node.comparators[0].value, bool):
+            c = node.comparators[0].value
+            op = type(node.ops[0])
+            table0 = {ast.Gt: 0 > c, ast.GtE: 0 >= c, ast.Lt: 0 < c, ast.LtE: 0 <= c, ast.Eq: 0 == c, ast.NotEq: 0 != c}
+            # later passes: i >= 1
+            later = {ast.Gt: True if c <= 0 else None, ast.GtE: True if c <= 1 else None, ast.Lt: False if c <= 1 else None,
+                     ast.LtE: False if c <= 0 else None, ast.Eq: False if c <= 0 else None, ast.NotEq: True if c <= 0 else None}
+            v = table0.get(op) if self.zero else later.get(op)
+            if v is None:
+                self.ok = False
+                return node
+            return ast.copy_location(ast.Constant(value=bool(v)), node)
+        return node
+
+    def visit_UnaryOp(self, node):
+        self.generic_visit(node)
+        if isinstance(node.op, ast.Not):
+            if self._is_i(node.operand):
+                return ast.copy_location(ast.Constant(value=self.zero), node)
+            if isinstance(node.operand, ast.Constant) and isinstance(node.operand.value, bool):
+                return ast.copy_location(ast.Constant(value=not node.operand.value), node)
+        return node
+
+    def visit_BoolOp(self, node):
+        self.generic_visit(node)
+        is_and = isinstance(node.op, ast.And)
+        vals = []
+        for v in node.values:
+            if self._is_i(v):
+                v = ast.copy_location(ast.Constant(value=not self.zero), v)
+            if isinstance(v, ast.Constant) and isinstance(v.value, bool):
+                if v.value != is_and:
+                    return ast.copy_location(ast.Constant(value=v.value), node)     # decides the whole expression
+                continue
+            vals.append(v)
+        if not vals:
+            return ast.copy_location(ast.Constant(value=is_and), node)
+        if len(vals) == 1:
+            return vals[0]
+        node.values = vals
+        return node
+
+    def visit_If(self, node):
+        self.generic_visit(node)
+        t = node.test
+        if self._is_i(t):
+            t = ast.Constant(value=not self.zero)
+        if isinstance(t, ast.Constant) and isinstance(t.value, bool):
+            return (node.body if t.value else node.orelse) or [ast.copy_location(ast.Pass(), node)]
+        return node
+
+
+def _peel_enumerate(fn_node):
+    """`for i, x in enumerate(T): BODY` where BODY tests i against 0 (the header travels through the row loop) becomes
+    `it = iter(T); x = next(it, _NOHEADER); if x is not _NOHEADER: BODY[i == 0]; for x in it: BODY[i > 0]` -- the form the
+    readers and writers of petl have, and the one the rules know.  Only when i is used in such tests alone and the loop has
+    no break / continue / else."""
+    import copy as _copy
+    n = 0
+
+    class T(ast.NodeTransformer):
+        def visit_FunctionDef(self, node):
+            return node if node is not fn_node else self.generic_visit(node)
+        visit_Lambda = visit_AsyncFunctionDef = lambda self, node: node
+
+        def visit_For(self, node):
+            nonlocal n
+            self.generic_visit(node)
+            it = node.iter
+            if not (isinstance(it, ast.Call) and isinstance(it.func, ast.Name) and it.func.id == 'enumerate' and
+                    len(it.args) == 1 and not it.keywords and isinstance(node.target, ast.Tuple) and
+                    len(node.target.elts) == 2 and isinstance(node.target.elts[0], ast.Name) and not node.orelse):
+                return node
+            i = node.target.elts[0].id
+            if any(isinstance(x, (ast.Break, ast.Continue)) for b in node.body for x in ast.walk(b)):
+                return node
+            first = [_copy.deepcopy(b) for b in node.body]
+            later = [_copy.deepcopy(b) for b in node.body]
+            d0, d1 = _DecideCounter(i, True), _DecideCounter(i, False)
+            out0, out1 = [], []
+            for b in first:
+                r = d0.visit(b)
+                out0.extend(r if isinstance(r, list) else [r])
+            for b in later:
+                r = d1.visit(b)
+                out1.extend(r if isinstance(r, list) else [r])
+            if not (d0.ok and d1.ok):
+                return node
+            if any(isinstance(x, ast.Name) and x.id == i for b in out0 + out1 for x in ast.walk(b)):
+                return node         # the counter is used for something else as well
+            if norm_dump(node.body) == norm_dump(out1):
+                return node         # nothing depended on the counter
+            itn = '_enum_it_%d' % node.lineno
+            x = node.target.elts[1]
+            stmts = [
+                ast.Assign(targets=[ast.Name(id=itn, ctx=ast.Store())],
+                           value=ast.Call(func=ast.Name(id='iter', ctx=ast.Load()), args=[it.args[0]], keywords=[])),
+                ast.Assign(targets=[_copy.deepcopy(x)],
+                           value=ast.Call(func=ast.Name(id='next', ctx=ast.Load()),
+                                          args=[ast.Name(id=itn, ctx=ast.Load()), ast.Name(id='_NOHEADER', ctx=ast.Load())], keywords=[])),
+            ]
+            xl = _copy.deepcopy(x)
+            for y in ast.walk(xl):
+                if hasattr(y, 'ctx'):
+                    y.ctx = ast.Load()
+            guard = ast.If(test=ast.Compare(left=xl, ops=[ast.IsNot()], comparators=[ast.Name(id='_NOHEADER', ctx=ast.Load())]),
+                           body=out0 + [ast.For(target=_copy.deepcopy(x), iter=ast.Name(id=itn, ctx=ast.Load()), body=out1, orelse=[])],
+                           orelse=[])
+            stmts.append(guard)
+            for st in stmts:
+                ast.copy_location(st, node)
+                ast.fix_missing_locations(st)
+            n += 1
+            return stmts
+    T().visit(fn_node)
+    if n:
+        ast.fix_missing_locations(fn_node)
+    return n
+
+
+def norm_dump(stmts):
+    return [ast.dump(s) for s in stmts]
+
+
 def apply(project):
     """peel in place; returns the fq names of the functions changed"""
     changed = []
@@ -223,6 +361,9 @@ def apply(project):
             continue
         for q, fn in list(m.functions.items()):
             if any(isinstance(x, ast.Starred) for x in ast.walk(fn.node)) and _spread_literal_tuples(fn.node):
+                changed.append(fn.fq)
+            if any(isinstance(x, ast.Call) and isinstance(x.func, ast.Name) and x.func.id == 'enumerate'
+                   for x in ast.walk(fn.node)) and _peel_enumerate(fn.node):
                 changed.append(fn.fq)
             if not any((isinstance(x, ast.For) and _chain_tail(x.iter) is not None) or
                        (isinstance(x, ast.Attribute) and x.attr == 'writerows') for x in ast.walk(fn.node)):
